@@ -885,7 +885,7 @@ impl Check for C14 {
         if rng.chance(1, 6) && !self.dense_buckets().is_empty() {
             let buckets = self.dense_buckets();
             let b = &buckets[rng.below(buckets.len())];
-            let nthreads = rng.range(2, 4);
+            let nthreads = *rng.pick(&[2usize, 2, 3, 4, 6, 8]);
             let k = rng.range(2, b.len().min(6));
             let mut calls = vec![];
             let mut expected = vec![];
